@@ -12,6 +12,7 @@
 // driver treats like a runtime-watchdog hang (shard continues behind the case).
 #include "h_pipeline_common.h"
 
+#include <cstdlib>
 #include <thread>
 
 namespace hpu {
@@ -67,13 +68,27 @@ struct HangWatch {
       long work = p ? static_cast<long>(p->verifWorkRemaining()) : -1;
       vrt::FutexStats fs = vrt::futexStats();
       std::vector<long> calls;
-      for (int k = 0; k < g.nStages; ++k) calls.push_back(g.calls[k].load());
+      for (int k = 0; k < kMaxStages; ++k) calls.push_back(g.calls[k].load());
       const char* kind = (work == 0 && !bg.load()) ? "deadlock: no stage function running, nothing queued in the pool" : "stalled: no stage function running or starting";
       vrt::violation(std::string("hang (") + kind + "): pipeline() has not returned and nothing happened for " + std::to_string(static_cast<int>(flat)) + " s",
                      J().kv("flat_s", flat).kv("workRemaining", work).kv("returned", g.returned.load()).arr("calls", calls).kv("generated", g.next.load()).kv("throws", g.throwN.load())
                          .kv("futexUntimedWaiters", fs.inUntimedWaitNow).kv("futexTimedWaiters", fs.inTimedWaitNow));
       fprintf(stderr, "@@VRT hang (h_pipeline HangWatch)\n");
       fflush(stderr);
+      // witness: stacks of all threads, like the runtime watchdog does (best effort)
+      if (!(getenv("VRT_GDB_ON_HANG") && getenv("VRT_GDB_ON_HANG")[0] == '0')) {
+        char cmd[512];
+        snprintf(cmd, sizeof cmd,
+                 "timeout 90 gdb -p %d -batch -ex 'set pagination off' -ex 'thread apply all bt 16' 2>&1 | "
+                 "grep -v '^\\[New LWP\\|^warning\\|^Reading\\|^$' | cut -c1-220 | head -n 500 >&2",
+                 static_cast<int>(getpid()));
+        fprintf(stderr, "@@VRT stacks begin\n");
+        fflush(stderr);
+        int rcg = system(cmd);
+        (void)rcg;
+        fprintf(stderr, "@@VRT stacks end\n");
+        fflush(stderr);
+      }
       _exit(3);
     }
   }
@@ -86,7 +101,8 @@ struct HangWatch {
     pool.store(p, std::memory_order_seq_cst);
     bg.store(withBg);
     phase.fetch_add(1, std::memory_order_relaxed);
-    armed.store(vrt::thorough() ? 12 : 6, std::memory_order_seq_cst);
+    // TSan slows everything ~10x on a loaded machine: same factor 2 as the runtime watchdog uses
+    armed.store((vrt::thorough() ? 12 : 6) * (VRT_TSAN ? 2 : 1), std::memory_order_seq_cst);
   }
   void disarm() {
     armed.store(0, std::memory_order_seq_cst);
